@@ -156,11 +156,30 @@ ea_op(const char * op, size_t a, size_t b, int refuse)
 		b = 1;
 	cur_refuse = refuse;
 	simalloc_refuse_shrink = refuse;
+	if (!strcmp(op, "append_edge")) {
+		/* record counts right at the overflow boundary of the current size: SIZE_MAX/reclen - size/reclen - 1, +0, +1 */
+		a = SIZE_MAX / b - msize / b + (a % 3) - 1;
+		op = "append";
+	}
 	if (!strcmp(op, "append")) {
 		int overflow = (a > SIZE_MAX / b) || (a * b > SIZE_MAX - msize);
 		uint8_t * buf = NULL;
 		size_t n = overflow ? 0 : a * b;
 
+		if (!overflow && n > ((size_t)1 << 40)) {
+			/* a request the real allocator must refuse: it has to fail cleanly and leave the array alone */
+			errno = 0;
+			LIB_ENTER();
+			rc = elasticarray_append(EA, "", a, b);
+			LIB_LEAVE();
+			TR(0x11, a, b, "elasticarray_append(%zu x %zu: more than any allocator gives) -> %d", a, b, rc);
+			R->cnt[N_OVERFLOW]++;
+			if (rc == 0)
+				sim_viol("C12.ea.size", "huge-append", "append of %zu x %zu records (about 2^%d bytes) succeeded", a, b, 63);
+			simalloc_refuse_shrink = 0;
+			ea_check(op);
+			return;
+		}
 		if (!overflow) {
 			if (n > 200000) {
 				a = 200000 / b;
@@ -695,12 +714,14 @@ h_checkmin(const char * after)
 }
 
 static void
-heap_op(const char * op, size_t a, size_t b)
+heap_op(const char * op, size_t a, size_t b, int refuse)
 {
 	int f0 = simalloc_failed, rc, n;
+	uint64_t r0 = simalloc_nrefused_shrink;
 	struct el * e;
 
 	R->cnt[N_OPS]++;
+	simalloc_refuse_shrink = refuse;
 	if (H == NULL) {
 		/* create: a = number of initial elements */
 		size_t N = !strcmp(op, "create") ? a % 300 : 0, i;
@@ -757,7 +778,7 @@ heap_op(const char * op, size_t a, size_t b)
 		LIB_LEAVE();
 		TR(0x51, e->key, rc, "ptrheap_add(key %ld) -> %d", (long)e->key, rc);
 		if (rc != 0) {
-			if (!AF_SINCE(f0))
+			if (!AF_SINCE(f0) && simalloc_nrefused_shrink == r0)
 				sim_viol("C13.min", "add-fail", "ptrheap_add failed without an allocation failure");
 			R->cnt[N_OPFAIL]++;
 		} else {
@@ -820,6 +841,7 @@ heap_op(const char * op, size_t a, size_t b)
 		LIB_LEAVE();
 		TR(0x56, e->key, 0, "ptrheap_increasemin(new key %ld)", (long)e->key);
 	}
+	simalloc_refuse_shrink = 0;
 	h_checkmin(op);
 	(void)in_heap_call;
 }
@@ -947,12 +969,14 @@ tq_getptr(const struct timeval * q, const char * what)
 }
 
 static void
-tq_op(const char * op, size_t a, size_t b)
+tq_op(const char * op, size_t a, size_t b, int refuse)
 {
 	int f0 = simalloc_failed, i;
+	uint64_t r0 = simalloc_nrefused_shrink;
 	struct el * e;
 
 	R->cnt[N_OPS]++;
+	simalloc_refuse_shrink = refuse;
 	if (TQ == NULL) {
 		LIB_ENTER();
 		TQ = timerqueue_init();
@@ -969,6 +993,12 @@ tq_op(const char * op, size_t a, size_t b)
 		e = &els[nel];
 		e->id = nel;
 		e->tv.tv_sec = (time_t)(100 + a % (b % 2 ? 3 : 50));
+		if (a % 23 == 0) {
+			/* far-apart times: beyond 2^31 and 2^32 seconds from the others */
+			static const int64_t far[] = { 2147483647LL, 2147483648LL, 2147483749LL, 4294967296LL, 4294967396LL, 3155760000LL, 253402300799LL };
+
+			e->tv.tv_sec = (time_t)far[(a / 23) % 7];
+		}
 		e->tv.tv_usec = (suseconds_t)((b % 4 == 0) ? 0 : (b * 7919) % 1000000);
 		e->live = 0;
 		for (i = 0; i < nel; i++)
@@ -981,7 +1011,7 @@ tq_op(const char * op, size_t a, size_t b)
 		LIB_LEAVE();
 		TR(0x60, e->tv.tv_sec, e->tv.tv_usec, "timerqueue_add(%ld.%06ld) -> %s", (long)e->tv.tv_sec, (long)e->tv.tv_usec, e->tqcookie ? "ok" : "NULL");
 		if (e->tqcookie == NULL) {
-			if (!AF_SINCE(f0))
+			if (!AF_SINCE(f0) && simalloc_nrefused_shrink == r0)
 				sim_viol("C13.tq.order", "add-fail", "timerqueue_add failed without an allocation failure");
 			R->cnt[N_OPFAIL]++;
 		} else {
@@ -1014,9 +1044,12 @@ tq_op(const char * op, size_t a, size_t b)
 		struct timeval q;
 
 		q.tv_sec = (time_t)(100 + a % 52);
+		if (a % 29 == 0)
+			q.tv_sec = (time_t)((a / 29) % 2 ? 2147483700LL : 4294967400LL);
 		q.tv_usec = (suseconds_t)((b % 3 == 0) ? 0 : (b * 104729) % 1000000);
 		tq_getptr(&q, "getptr");
 	}
+	simalloc_refuse_shrink = 0;
 	tq_checkmin(op);
 }
 
@@ -1077,8 +1110,10 @@ engine_gen(struct plan * P, uint64_t seed, struct prng * g)
 
 			if (x < 35)
 				plan_add(P, "step", "append", 3, (int64_t)(prng_chance(g, 15) ? prng_n(g, 2000) : prng_n(g, 12)), (int64_t)r, (int64_t)ref);
-			else if (x < 38)
+			else if (x < 37)
 				plan_add(P, "step", "append", 3, (int64_t)-1 - (int64_t)prng_n(g, 100), (int64_t)(2 + prng_n(g, 30)), (int64_t)0);
+			else if (x < 38)
+				plan_add(P, "step", "append_edge", 3, (int64_t)prng_n(g, 3), (int64_t)(prng_chance(g, 70) ? 3 + 2 * prng_n(g, 6) : 1 + prng_n(g, 64)), (int64_t)0);
 			else if (x < 50)
 				plan_add(P, "step", "resize", 3, (int64_t)(prng_chance(g, 15) ? prng_n(g, 3000) : prng_n(g, 40)), (int64_t)r, (int64_t)ref);
 			else if (x < 52)
@@ -1140,14 +1175,14 @@ engine_gen(struct plan * P, uint64_t seed, struct prng * g)
 		for (i = 0; i < n; i++) {
 			static const char * const ops[] = { "add", "add", "add", "add", "deletemin", "deletemin", "delete", "delete", "increase", "decrease", "increasemin" };
 
-			plan_add(P, "step", ops[prng_n(g, 11)], 2, (int64_t)prng_n(g, 100000), (int64_t)prng_n(g, 100000));
+			plan_add(P, "step", ops[prng_n(g, 11)], 3, (int64_t)prng_n(g, 100000), (int64_t)prng_n(g, 100000), (int64_t)prng_chance(g, (unsigned)prefuse));
 		}
 		break;
 	default:
 		for (i = 0; i < n; i++) {
 			static const char * const ops[] = { "add", "add", "add", "add", "delete", "increase", "increase", "getptr", "getptr", "getptr" };
 
-			plan_add(P, "step", ops[prng_n(g, 10)], 2, (int64_t)prng_n(g, 100000), (int64_t)prng_n(g, 100000));
+			plan_add(P, "step", ops[prng_n(g, 10)], 3, (int64_t)prng_n(g, 100000), (int64_t)prng_n(g, 100000), (int64_t)prng_chance(g, (unsigned)prefuse));
 		}
 		break;
 	}
@@ -1214,10 +1249,10 @@ engine_run(const struct plan * P)
 			pool_op(l->name, a);
 			break;
 		case 4:
-			heap_op(l->name, a, b);
+			heap_op(l->name, a, b, ref);
 			break;
 		default:
-			tq_op(l->name, a, b);
+			tq_op(l->name, a, b, ref);
 			break;
 		}
 	}
